@@ -1,5 +1,6 @@
 """Plan generators.  gen(profile, seed, tier) -> plan (a JSON-able dict).
 Only random.Random(seed) with getrandbits-based draws is used."""
+import os
 import random
 
 from . import ical
@@ -198,6 +199,18 @@ def gen_c04(seed, tier='quick', opts=None):
     ntasks = g.wpick([(1, 3), (2, 3), (3, 2), (g.rint(4, 8), 2),
                       (g.rint(9, 12 if tier == 'quick' else 40), 0.5)])
     cfg = base_cfg(g, t0)
+    # wall clock steps (own PRNG, the rest of the plan is what it was without them).  Backward steps only in
+    # the campaigns: what a forward step does is the recorded known finding C04/clock-step-forward.
+    gs = G(seed ^ 0x7e57c10c)
+    steps = []
+    if gs.chance(opts.get('p_clockstep', 0.15)):
+        for _ in range(gs.wpick([(1, 3), (2, 1)])):
+            dt = gs.pick([-0.4, -3.0, -45.0, -900.0, -7200.0])
+            if opts.get('forward_steps'):
+                dt = -dt if gs.chance(0.5) else dt
+            steps.append((round(t0 + gs.uni(1.0, horizon), 3), dt))
+    # tasks are loaded at wall times as early as this (occurrence lists start there)
+    lo = int(t0 - 10 + sum(dt for _, dt in steps if dt < 0)) - 1
     tasks = []
     ops = []
     nrestart = g.wpick([(0, 6), (1, 3), (2, 1)]) if opts.get('restarts', True) else 0
@@ -212,7 +225,7 @@ def gen_c04(seed, tier='quick', opts=None):
         sp = arith_spec(g, uid, tl, horizon, opts)
         if opts.get('maxsimul') and g.chance(0.7):
             sp['maxsimul'] = g.wpick([(1, 4), (2, 3), (3, 2), (5, 1), (17, 0.5), (62, 0.5)])
-        t = finish_task(len(tasks), sp, lo=t0 - 10)
+        t = finish_task(len(tasks), sp, lo=lo)
         tasks.append(t)
         via = 'echsq' if g.chance(0.8) else 'raw'
         if (sp.get('rdates') or len(sp['rules']) > 1) and opts.get('avoid_serial', True):
@@ -225,7 +238,9 @@ def gen_c04(seed, tier='quick', opts=None):
     if len(ops) > 1 and g.chance(0.4):
         a = ops[0]
         for b in ops[1:]:
-            if b['peer'] == a['peer'] and b['via'] == a['via'] and g.chance(0.5):
+            # (only adds meant for about the same moment: a task's rules are sized for when it is loaded,
+            # loading it hours early can mean tens of thousands of runs)
+            if b['peer'] == a['peer'] and b['via'] == a['via'] and abs(b['t'] - a['t']) < 5.0 and g.chance(0.5):
                 a['tasks'] += b['tasks']
                 b['tasks'] = []
         ops = [o for o in ops if o['tasks']]
@@ -256,7 +271,7 @@ def gen_c04(seed, tier='quick', opts=None):
             sp = arith_spec(g, t['spec']['uid'], at, horizon, opts)
             if opts.get('maxsimul') and g.chance(0.7):
                 sp['maxsimul'] = g.pick([1, 2, 3, 5])
-            nt = finish_task(len(tasks), sp, lo=t0 - 10)
+            nt = finish_task(len(tasks), sp, lo=lo)
             tasks.append(nt)
             ops.append({'t': round(at, 4), 'op': 'add', 'peer': owner,
                         'tasks': [nt['id']], 'linger': round(g.uni(0.05, 1.0), 3),
@@ -274,6 +289,8 @@ def gen_c04(seed, tier='quick', opts=None):
         ops.append({'t': round(t0 + g.uni(1, horizon), 3), 'op': 'spawnfault',
                     'which': g.pick(['pipe', 'spawn']), 'errno': g.pick(['EAGAIN', 'EMFILE', 'ENOMEM']),
                     'count': g.rint(1, 3)})
+    for st, dt in steps:
+        ops.append({'t': st, 'op': 'clockstep', 'dt': dt})
     ops.sort(key=lambda o: o['t'])
     end = t0 + horizon + 5
     epochs = [{'start': t0, 'ops': ops}]
@@ -351,7 +368,7 @@ def collision_groups():
     if _COLL is None:
         import json
         try:
-            _COLL = json.load(open('/verif/build/uidcoll.json'))
+            _COLL = json.load(open(os.environ.get('VERIF_BUILD', '/verif/build') + '/uidcoll.json'))
         except Exception:
             _COLL = {}
     return _COLL
